@@ -4,6 +4,7 @@ from ..conds import lits_of
 from ..callgraph import cg_of
 from ..effects import effects_of, REPLICA_STATE
 from ..flows import flow_of
+from ..roles import roles_of
 from ..common import arg_term, contains_call, field_path
 
 TEXT = ("Q1 (effect analysis): the transitive write-effect summary of meld contains no field of replica state "
@@ -39,6 +40,7 @@ CACHES = {("datastorage::DataStorage", "cache"), ("melda::Melda", "array_descrip
 
 
 def run(facts, res):
+    R = roles_of(facts)
     cg = cg_of(facts)
     eff = effects_of(facts)
     res.rule("Q1", "meld has no write effect on replica state or caches; it touches the data storage only through lister / raw writer / applied_packs")
@@ -72,7 +74,7 @@ def run(facts, res):
                     if _own_data_guard(r, b, m):
                         names.add(c.name)
         res.instance("Q1", "DataStorage methods meld calls through its write guard: %s" % sorted(names), m.loc())
-        extra = names - {"list_raw_items", "write_raw_item", "applied_packs"}
+        extra = names - {R.name("lister"), R.name("raw_write"), "applied_packs"}
         if extra or not names:
             res.violation("Q1", "meld|data-methods:%s" % ",".join(sorted(extra)), "meld calls %s on its own data storage; only list_raw_items / write_raw_item / applied_packs are storage-only" % sorted(extra), m.loc())
 
